@@ -47,8 +47,10 @@ RULE = (
 )
 ASSUMPTIONS = ["objective definitions as in the property text"]
 
+# plain 'combo' / 'limit' mean factor 64; they are interleaved with explicit
+# factors on purpose: the parsed cost functions are cached by the library
 OBJECTIVES = ["flops", "size", "write", "max", "combo-64", "combo-2",
-              "limit-64", "limit-2"]
+              "combo", "limit-2", "limit", "limit-64"]
 
 
 def graphs(n):
@@ -172,8 +174,8 @@ def objective_value(obj, rows):
         return sum(s for f, s in rows)
     if obj == "max":
         return max(f for f, s in rows)
-    kind, k = obj.split("-")
-    k = float(k)
+    kind, _, k = obj.partition("-")
+    k = float(k) if k else 64.0
     if kind == "combo":
         return sum(f + k * s for f, s in rows)
     return sum(max(f, k * s) for f, s in rows)
